@@ -33,6 +33,7 @@ mod c17;
 mod c18;
 mod c19;
 mod faults;
+mod perturb;
 
 use engine::{Property, RunCfg, Tier};
 
